@@ -25,6 +25,8 @@ def table(rng, kind):
 
 
 def oracle(inp):
+    if not isinstance(inp, dict) or inp.get('kind') not in ('numeric','meta','sparse','pds'):
+        return None          # unknown input kind (model of another property's unit)
     import random
     from cardutil.config import config
     from cardutil.cli import mci_csv_to_ipm as C2I, mci_ipm_to_csv as I2C
